@@ -14,7 +14,8 @@
     [wf_file NM f] the documented format; [short_lines f] every line below the scanner's 65536-byte
     limit; [clean_file f] no malformed line under any heading, i.e. the file parses without error
     ([clean_file_no_errors]); [headings_dated toks f] every heading is a date under the layout;
-    [file_is w p data] the path holds a regular file with these bytes, read without an injected
+    [file_is w p data] the path (not empty, and not the null device /dev/null, which since fix F24 opens as
+    the empty file whatever the world says) holds a regular file with these bytes, read without an injected
     fault; [op_db op <> op_log op] the book is another file.  Each is shown necessary below.
     [Settings.config_path w i <> op_log op] (WP28: a regular file at the configuration path is now
     read as text by [Config.parse_config]): the log is not also the configuration file. *)
